@@ -434,6 +434,53 @@ add('SelectDefault', 'C08', b_sd, lambda c, v: [next((v[c[0] + j] for j in range
     domain=lambda c, v: sum(v[:c[0]]) <= 1)
 
 
+def b_sd_mixed(parent, cfg, mk):
+    ws, dw, rw = cfg
+    sels = [mk('s%d' % j, 1) for j in range(len(ws))]
+    ins = [mk('i%d' % j, w) for j, w in enumerate(ws)]
+    D = mk('df', dw); R = mk('r', rw)
+    P().SelectDefault(parent, 'd', sels, ins, D, R)
+    return sels + ins + [D], [R]
+
+
+# inputs, default and result of different widths: the selected value is zero-extended / reduced to the result width
+_SDM = [((4, 8, 2), 8, 8), ((2, 8), 4, 8), ((8, 2, 8), 8, 8), ((3, 5), 8, 8), ((8, 4), 8, 4)]
+add('SelectDefault(mixed widths)', 'C08', b_sd_mixed,
+    lambda c, v: [next((v[len(c[0]) + j] for j in range(len(c[0])) if v[j]), v[2 * len(c[0])])],
+    _SDM, _SDM + [((1, 16, 3, 9), 16, 16), ((6, 6, 12), 3, 12)], domain=lambda c, v: sum(v[:len(c[0])]) <= 1)
+
+
+def _sel_ins_mixed(cls_name):
+    def b(parent, cfg, mk):
+        ws, rw = cfg
+        sels = [mk('s%d' % j, 1) for j in range(len(ws))]
+        ins = [mk('i%d' % j, w) for j, w in enumerate(ws)]
+        R = mk('r', rw)
+        getattr(P(), cls_name)(parent, 'd', sels, ins, R)
+        return sels + ins, [R]
+    return b
+
+
+_OHM = [((4, 8, 2), 8), ((8, 2), 8), ((2, 8), 8), ((3, 5, 8, 1), 8), ((8, 8), 4)]
+for _nm in ('OneHotMux', 'Select'):
+    add('%s(mixed widths)' % _nm, 'C08', _sel_ins_mixed(_nm), lambda c, v: [sum(v[len(c[0]) + j] for j in range(len(c[0])) if v[j])],
+        _OHM, _OHM + [((16, 1, 9), 16)], domain=lambda c, v: sum(v[:len(c[0])]) == 1)
+
+
+def b_mux_mixed(parent, cfg, mk):
+    ws, rw = cfg
+    k = (len(ws) - 1).bit_length()
+    S = mk('s', k)
+    ins = [mk('i%d' % j, w) for j, w in enumerate(ws)]
+    R = mk('r', rw)
+    P().Mux(parent, 'd', S, ins, R)
+    return [S] + ins, [R]
+
+
+_MXM = [((4, 8), 8), ((8, 4), 8), ((2, 8, 4, 8), 8), ((8, 8, 8, 3), 8), ((8, 8), 4)]
+add('Mux(mixed widths)', 'C08', b_mux_mixed, lambda c, v: [v[1 + v[0]]], _MXM, _MXM + [((1, 2, 3, 4, 5, 6, 7, 8), 8)])
+
+
 def _pe(inc):
     def b(parent, cfg, mk):
         n = cfg[0]
